@@ -9,6 +9,10 @@ Input: the lines of one case printed by harness/cmd/verifharness/c08.go / c09.go
   orphan st p         a never-referenced part was put into store st
   anom reg p c | cnt p | miss p | idx st ck p     bookkeeping damaged through the repositories
   gc old|young ok|err fail=p,…|~     one collector pass
+  gcpause obs | gcpause list st / gcresume ok|err fail=…   one pass, paused after its observation (or after
+                      listing store st) while the operations in between committed
+  extra st kind n     n files of kind tmp|txbackup|other in the directory of filesystem store st
+                      that GetPartIds does not list (and the harness did not create)
   st rows=o:seq:p:st:ck:size,… reg=p:c:v,… idx=st:ck:p,… s0=p,…|?|~ [s1=…]
   rd b k vid etag size ok|err digest len
   wrote etag digest len / conc … / snap / quiescent / leftover …
@@ -25,6 +29,7 @@ What it does:
 -/
 import Pithos.Util.Proto
 import Pithos.Model.Parts
+import Pithos.Gen.PartsSql
 
 namespace Pithos.PartsTrace
 open Pithos.Proto Pithos.Parts
@@ -183,6 +188,23 @@ def obsInv (sqlStores : List Nat) (d : Dump) : List String := Id.run do
     | _ => pure ()
   return out
 
+/-- The model state as a dump (to evaluate `obsInv` on the model itself). -/
+def dumpOfModel (n : Nat) (cks : List Nat) (s : St) : Dump :=
+  { rows := s.rows.map fun r => ⟨r.owner, r.seq, r.pid, r.store, r.ck, 1⟩
+    reg := s.used.eraseDups.filterMap fun p => (s.reg p).map fun e => (p, e.1)
+    idx := (List.range n).flatMap fun st => cks.filterMap fun ck => (s.idx st ck).map fun p => (st, ck, p)
+    stores := (List.range n).map fun st => some (s.used.eraseDups.filter fun p => (s.stores st p).isSome) }
+
+/-- C08 judge: a referenced part whose registry count is below the number of referencing rows
+(or that has no registry row) — removing `ref_count` references deletes content that is still
+referenced. -/
+def underCounted (d : Dump) : List String :=
+  (sortNats ((d.rows.map (·.pid)).eraseDups)).filterMap fun p =>
+    let cnt := (d.rows.filter (·.pid == p)).length
+    match d.reg.find? (fun e => e.1 == p) with
+    | some (_, c) => if c < cnt then some s!"part{p}:ref_count={c},rows={cnt}" else none
+    | none => some s!"part{p}:no-registry-row,rows={cnt}"
+
 /-- C08 judge, part (a): every part row's id is listed by its store. -/
 def missingParts (sqlStores : List Nat) (d : Dump) : List String :=
   d.rows.filterMap fun r =>
@@ -219,7 +241,7 @@ inductive Prop08 | c08 | c09 deriving BEq
 
 structure Eng where
   prop : Prop08
-  cfg : Cfg := ⟨1, [0], fun _ => false⟩
+  cfg : Cfg := ⟨1, [0], fun _ => false, Pithos.Gen.partsSql⟩
   n : Nat := 1
   sqlStores : List Nat := []
   kind : String := "seq"
@@ -242,6 +264,7 @@ structure Eng where
   okTx : Nat := 0
   gcs : Nat := 0
   concOps : Nat := 0
+  split : Option (Option (Nat × List Nat)) := none   -- a paused pass: none = after the observation; some (st, cands) = after listing st
   anomalous : Bool := false      -- the harness damaged the bookkeeping; RefInv is not expected until the next clean pass
 
 def Eng.stat (e : Eng) (k : String) (n : Nat := 1) : Eng := { e with stats := addStats e.stats [(k, n)] }
@@ -266,7 +289,7 @@ def Eng.onCfg (e : Eng) (toks : List String) : Eng :=
   let sqlStores : List Nat := []
   let grace := if kvOf toks "grace" == "large" then 1000000 else 1
   { e with n, sqlStores, kind := kvOf toks "kind",
-           cfg := ⟨grace, List.range n, fun st => bits.getD st '0' == '1'⟩ }
+           cfg := ⟨grace, List.range n, fun st => bits.getD st '0' == '1', Pithos.Gen.partsSql⟩ }
 
 def Eng.onRes (e : Eng) (toks : List String) : Eng := Id.run do
   let ok := toks.getD 1 "" == "ok"
@@ -299,7 +322,7 @@ def Eng.onX (e : Eng) (toks : List String) : Eng := Id.run do
   e := e.stat "micro_rawput" (ms.filter (fun m => match m with | .rawput .. => true | _ => false)).length
   e := e.stat "micro_rm" (ms.filter (fun m => match m with | .rm .. => true | _ => false)).length
   if e.synced then
-    match runTx e.m ms with
+    match runTx e.cfg.sql e.m ms with
     | some m' =>
       let shared := m'.used.length - e.m.used.length   -- every dedupe/rawput consumes one id
       let _ := shared
@@ -323,6 +346,35 @@ def Eng.onGc (e : Eng) (toks : List String) : Eng := Id.run do
     else
       e := { e with synced := false }   -- a pass that aborted midway is not followed; re-adopt at the next st
   return e
+
+def Eng.onGcPause (e : Eng) (toks : List String) : Eng := Id.run do
+  let mut e := e.stat "gc_paused_passes"
+  if !e.synced then return e
+  let m := step e.cfg e.m (.tick (e.cfg.grace + 1))
+  if toks.getD 1 "" == "obs" then
+    e := { e with m := step e.cfg m .gcObserve, split := some none }
+  else
+    let st := (toks.getD 2 "0").toNat!
+    let (m', cands) := gcUntilList e.cfg m st
+    e := { e with m := m', split := some (some (st, cands)) }
+  return { e with lastGcClean := false }
+
+def Eng.onGcResume (e : Eng) (toks : List String) : Eng := Id.run do
+  let ok := toks.getD 1 "" == "ok"
+  let fails := (splitList (kvOf toks "fail")).map String.toNat!
+  let mut e := { e with gcs := e.gcs + 1 }
+  e := e.stat "gc_runs"
+  let clean := ok && fails.isEmpty
+  e := { e with prevGcClean := false, lastGcClean := false, afterGcClean := false }
+  let _ := clean
+  if e.synced then
+    if ok then
+      match e.split with
+      | some none => e := { e with m := gcResumeObs e.cfg (fun p => fails.contains p) e.m }
+      | some (some (st, cands)) => e := { e with m := gcResumeList e.cfg (fun p => fails.contains p) e.m st cands }
+      | none => e := e.addDiv ["gcresume-without-gcpause"]
+    else e := { e with synced := false }
+  return { e with split := none }
 
 def identOf (toks : List String) : String :=
   s!"{toks.getD 1 ""}/{toks.getD 2 ""}/{toks.getD 3 ""}/{toks.getD 4 ""}"
@@ -365,10 +417,15 @@ def Eng.onSt (e : Eng) (toks : List String) : Eng := Id.run do
   let snap := e.snapNext
   e := { e with snapNext := false }
   -- tie 1: the invariant on the observed state
-  if e.anomalous && e.afterGcClean then e := { e with anomalous := false }
-  if !e.anomalous then
+  -- (while the model itself is outside RefInv — the harness damaged the bookkeeping — the state
+  -- comparison below is the tie; the invariant is not expected)
+  let modelConsistent := !e.synced || (obsInv [] (dumpOfModel e.n e.cks e.m)).isEmpty
+  if modelConsistent then
     for msg in obsInv e.sqlStores d do
       e := e.addDiv [msg]
+  if e.prop == .c08 && modelConsistent then
+    for msg in underCounted d do
+      e := e.addVio "C08.registry-undercount" msg
   -- judge C08 (a)
   if e.prop == .c08 then
     for msg in missingParts e.sqlStores d do
@@ -426,6 +483,13 @@ def Eng.line (e : Eng) (l : String) : Eng :=
     { e with m := step e.cfg e.m (.orphan (toks.getD 1 "0").toNat! (toks.getD 2 "0").toNat!), lastGcClean := false }
   | some "anom" => e.onAnom toks
   | some "gc" => e.onGc toks
+  | some "gcpause" => e.onGcPause toks
+  | some "gcresume" => e.onGcResume toks
+  | some "extra" =>
+    -- extra <store> <kind> <n>: judged for C09 after a fault-free pass at quiescence
+    if e.prop == .c09 && e.lastGcClean && (toks.getD 3 "0").toNat! > 0 then
+      e.addVio "C09.unlisted-file-never-reclaimed" s!"store{toks.getD 1 ""}:{toks.getD 2 ""}:{toks.getD 3 ""}-files"
+    else e
   | some "st" => e.onSt toks
   | some "rd" => e.onRd toks
   | some "rderr" => e.addDiv ["read-back-listing-failed"]
